@@ -41,6 +41,9 @@ def load_findings(pid):
     return [e for e in data.get('findings', []) if e.get('property') == pid]
 
 
+_EARLY_COV = None
+
+
 class _CaseTimeout(Exception):
     pass
 
@@ -97,7 +100,7 @@ def run_shard(check, tier, seed, shard, nshards, budget_s, with_coverage):
         'violations': [], 'truncated': False, 'exhausted_generator': False,
         'inconclusive': None, 'coverage': None,
     }
-    cov = _coverage_start() if with_coverage else None
+    cov = _EARLY_COV if with_coverage else None
     t0 = time.monotonic()
     signal.signal(signal.SIGALRM, _alarm)
     gen = check.generate(rng, tier, shard, nshards)
@@ -319,6 +322,11 @@ def main(argv=None):
     seed = int(os.environ.get('VERIF_SEED') or 0)
     tier = args.tier
     t0 = time.monotonic()
+    # line coverage of the anchor files is measured from before rxsci is imported (so module-level
+    # lines count) in the single quick process and in shard 0 of a thorough run; reporting only
+    global _EARLY_COV
+    if (args.shard is None and tier == 'quick') or (args.shard is not None and args.shard.startswith('0/')):
+        _EARLY_COV = _coverage_start()
     try:
         common.bootstrap()
         check = load_check(pid)
